@@ -31,7 +31,7 @@ TEST_CODES = set('100 200 400 800 1500 5000 10000 110H 100H 400H 3000SC 4x100 4x
 FIELD8 = ['HJ', 'PV', 'LJ', 'TJ', 'SP', 'DT', 'HT', 'JT']
 _FIELD_PREFIX = re.compile(r'^(HJ|PV|LJ|TJ|SP|DT|HT|JT)')
 _PLAIN = re.compile(r'^(\d+)\s*([yYwW]?)$')
-_RELAY = re.compile(r'^(\d{1,2})[xX](\d+)([hHMK]?)$')
+_RELAY = re.compile(r'^(\d{1,2})[xX](\d+)([A-Za-z]{0,2})$')       # any unit suffix the relay pattern may come to admit, as the caller writes it
 _HURD = re.compile(r'^(\d{2,4})(?!\d)')
 
 
